@@ -58,7 +58,7 @@ def trE (c : ClassD) : Expr → V.Expr
   | .cmp op a b => .bin (vBin (cmpSym op)) (trE c a) (trE c b)
   | .and a b => .bin (vBin andSym) (trE c a) (trE c b)
   | .or a b => .bin (vBin orSym) (trE c a) (trE c b)
-  | .ite cnd a b => .tern (trE c cnd) (trE c a) (trE c b)     -- what ReplaceIfExp WOULD emit; never reached (see `supported`)
+  | .ite cnd a b => .tern (trE c cnd) (trE c a) (trE c b)     -- ReplaceIfExp: `((c) ? a : b)` (since /repo 760fbc8)
 
 def blocking (txt : String) : Bool := txt == "a=1;"
 
@@ -120,7 +120,8 @@ def trModule (c : ClassD) : V.Module :=
   let outs := (c.ports.filter (·.isOut)).map fun p => ({ dir := .out, isReg := true, width := p.width, name := p.port } : V.Port)
   let clk : List V.Port := if c.isSeq then [{ dir := .inp, isReg := false, width := 1, name := c.clk }] else []
   let ints := (c.state.map (·.1) ++ newVars c).map fun n => V.Item.int n none
-  let inits := if c.isSeq then c.state.map fun (n, v) => V.Stmt.ba (.lid n) (numE v) else []
+  -- the `initial` block repeats EVERY constructor assignment in order (the last one wins, as in the constructed object)
+  let inits := if c.isSeq then c.inits.map fun (n, v) => V.Stmt.ba (.lid n) (numE v) else []
   { name := c.name, params := c.params.map (·.1), ports := clk ++ ins ++ outs,
     items := ints ++ [V.Item.initial (seqOf inits), V.Item.always (if c.isSeq then .pos c.clk else .star) (trS c c.body)] }
 
@@ -172,13 +173,13 @@ def okV (c : ClassD) : Expr → Bool
   | .cmp _ a b => okV c a && okV c b && (decide (32 ≤ max (sw c a) (sw c b)) || (leaf a && leaf b))
   | .and a b => okC c a && okC c b && isBool a && isBool b
   | .or a b => okC c a && okC c b && isBool a && isBool b
-  | .ite _ _ _ => false
+  | .ite cnd a b => okC c cnd && okV c a && okV c b
 /-- usable where only the TRUTH value is consumed (if-test, operand of and/or/not, guard) -/
 def okC (c : ClassD) : Expr → Bool
   | .and a b => okC c a && okC c b
   | .or a b => okC c a && okC c b
   | .un .lnot e => okC c e
-  | .ite _ _ _ => false
+  | .ite cnd a b => okV c (.ite cnd a b) && decide (32 ≤ sw c (.ite cnd a b))
   | .const v => decide (0 ≤ v)
   | .loc n => !(isPort c n) && (lookup c.consts n).isNone
   | .attr n => !(isPort c n)
@@ -250,6 +251,8 @@ def okClass (c : ClassD) : Bool :=
   allDistinct (c.ports.map (·.attr) ++ c.state.map (·.1) ++ c.consts.map (·.1) ++ c.params.map (·.1) ++ (if c.isSeq then [c.clk] else [])) &&
   (newVars c).all (fun n => !(c.params.map (·.1)).contains n && n != c.clk) &&
   c.state.all (fun (_, v) => decide (0 ≤ v)) &&
+  -- `state` is what the constructor's assignments leave behind: every state value is the LAST assigned constant
+  c.state.all (fun (n, v) => lastVal c.inits n == some v) && c.inits.all (fun (n, v) => isState c n && decide (0 ≤ v)) &&
   (c.isSeq || (getsS c.body).all (fun w => !(putsS c.body).contains w))
 
 def supported (c : ClassD) : Bool := okClass c && okS c c.body
